@@ -115,6 +115,7 @@ type Ctx struct {
 	// Dynamic makes Sharded hand out indices on demand (first come, first served)
 	// instead of i%N; incompatible with OnCrash's re-run of a fixed shard.
 	Dynamic        bool
+	shardCall      int
 	isWorker       bool
 	shardK, shardN int
 	workerOut      string
@@ -496,7 +497,12 @@ func runWorker(id, tier string, k, n int, out string) {
 // same check and executes only the scenarios i with i%N == k; the parent merges
 // the workers' coverage. Scenario bodies may install process-global hooks.
 func (c *Ctx) Sharded(n int, body func(i int)) {
+	c.shardCall++
 	if c.isWorker {
+		// a check may call Sharded several times (stages); a worker serves exactly one of them
+		if t := os.Getenv("VERIF_SHARD_CALL"); t != "" && t != strconv.Itoa(c.shardCall) {
+			return
+		}
 		if dir := os.Getenv("VERIF_CLAIM_DIR"); dir != "" {
 			// dynamic balancing: a worker claims the next unclaimed index by creating a file exclusively
 			for i := 0; i < n; i++ {
@@ -520,7 +526,7 @@ func (c *Ctx) Sharded(n int, body func(i int)) {
 	}
 	claimDir := ""
 	if c.Dynamic && N > 1 && os.Getenv("VERIF_INPROC") == "" {
-		claimDir = filepath.Join(verifRoot, "build", "tmp", fmt.Sprintf("claim-%s-%d", c.ID, os.Getpid()))
+		claimDir = filepath.Join(verifRoot, "build", "tmp", fmt.Sprintf("claim-%s-%d-%d", c.ID, os.Getpid(), c.shardCall))
 		_ = os.RemoveAll(claimDir)
 		_ = os.MkdirAll(claimDir, 0o755)
 		defer os.RemoveAll(claimDir)
@@ -550,6 +556,7 @@ func (c *Ctx) Sharded(n int, body func(i int)) {
 				if claimDir != "" {
 					cmd.Env = append(cmd.Env, "VERIF_CLAIM_DIR="+claimDir)
 				}
+				cmd.Env = append(cmd.Env, "VERIF_SHARD_CALL="+strconv.Itoa(c.shardCall))
 				var tail tailBuffer
 				cmd.Stderr = &tail
 				cmd.Stdout = &tail
